@@ -45,6 +45,33 @@ extern "C" void h_bytes_roundtrip(void) {
   } VF_CATCH
 }
 
+// bytes -> ReadMap -> Write: the written bytes equal the consumed bytes (no second parse, so a writer/reader mismatch shows at once)
+extern "C" void h_bytes_write_once(void) {
+  static uint8_t in[MAP_MAXLEN];
+  MapShape s = build_map(in);
+  g_may_throw = false;
+  VF_TRY {
+    Stream::MemoryReader r(in, s.total);
+    Map m = Map::ReadMap(r);
+    vf_assert(r.Position() == s.consumed, "reader consumes exactly the map and ignores trailing bytes");
+    Stream::DynamicMemoryWriter w1;
+    m.Write(w1);
+    vf_assert(w1.Length() == s.consumed, "written length equals the consumed length");
+    Stream::MemoryReader o1 = w1.GetReader();
+    static uint8_t out[MAP_MAXLEN];
+    o1.Read(out, s.consumed);
+    for (unsigned i = 0; i < MAP_MAXLEN; i++) {
+      if (i >= s.consumed) break;
+      if (i >= s.offSavedGame && i < s.offSavedGame + 4) continue;
+      if (i >= s.offUnknown && i < s.offUnknown + 4) continue;
+      vf_assert(out[i] == in[i], "written bytes equal the consumed bytes");
+    }
+    vf_assert(vf_ld32(out + s.offSavedGame) == (vf_ld32(in + 4) != 0 ? 1u : 0u), "saved-game flag is normalised to 0/1");
+    vf_assert(vf_ld32(out + s.offUnknown) == (NGRP ? NGRP - 1 : 0), "the undocumented tile-group word is regenerated");
+    VF_WITNESS();
+  } VF_CATCH
+}
+
 // one public edit with symbolic arguments on an arbitrary map of the shape: the re-read map differs exactly in what the edit names
 #ifndef EDIT
 #define EDIT 0
@@ -94,10 +121,42 @@ extern "C" void h_edit(void) {
   } VF_CATCH
 }
 
+static void build_object(OP2Utility::Map& m, uint32_t& tag);
+// object -> Write: the bytes equal an independent encoding of the logical fields (no parse involved)
+extern "C" void h_object_bytes(void) {
+  Map m; uint32_t tag;
+  build_object(m, tag);
+  g_may_throw = false;
+  VF_TRY {
+    Stream::DynamicMemoryWriter w;
+    m.Write(w);
+    static uint8_t ref[MAP_MAXLEN + 16], out[MAP_MAXLEN + 16];
+    unsigned n = ref_encode_map(m, LG, ref);
+    vf_assert(w.Length() == n, "written length equals the reference encoding's");
+    Stream::MemoryReader r = w.GetReader();
+    r.Read(out, n);
+    vf_assert(memcmp(out, ref, n) == 0, "written bytes equal the independent encoding of the map's fields");
+    VF_WITNESS();
+  } VF_CATCH
+}
 // object -> Write -> ReadMap -> equal (all scalar fields symbolic, built directly in memory)
 extern "C" void h_object_roundtrip(void) {
-  Map m;
-  uint32_t tag = vf_nondet_u32();
+  Map m; uint32_t tag;
+  build_object(m, tag);
+  g_may_throw = tag < 0x1010;    // the reader refuses version tags below the minimum
+  VF_TRY {
+    Stream::DynamicMemoryWriter w;
+    m.Write(w);
+    Stream::MemoryReader r = w.GetReader();
+    Map m2 = Map::ReadMap(r);
+    vf_assert(!g_may_throw, "version tag below the minimum accepted");
+    vf_assert(maps_equal(m, m2), "object -> bytes -> object is the identity");
+    vf_assert(r.Position() == r.Length(), "the reader consumes everything the writer produced");
+    VF_WITNESS();
+  } VF_CATCH
+}
+static void build_object(OP2Utility::Map& m, uint32_t& tag) {
+  tag = vf_nondet_u32();
   m.versionTag = tag;
   m.isSavedGame = vf_nondet_u8() & 1;
   m.widthInTiles = 1u << LG; m.heightInTiles = H;
@@ -119,17 +178,6 @@ extern "C" void h_object_roundtrip(void) {
     m.tileGroups[g].name = std::string(GNL, 'g');
     for (unsigned k = 0; k < GNL; k++) m.tileGroups[g].name[k] = (char)vf_nondet_u8();
   }
-  g_may_throw = tag < 0x1010;    // the reader refuses version tags below the minimum
-  VF_TRY {
-    Stream::DynamicMemoryWriter w;
-    m.Write(w);
-    Stream::MemoryReader r = w.GetReader();
-    Map m2 = Map::ReadMap(r);
-    vf_assert(!g_may_throw, "version tag below the minimum accepted");
-    vf_assert(maps_equal(m, m2), "object -> bytes -> object is the identity");
-    vf_assert(r.Position() == r.Length(), "the reader consumes everything the writer produced");
-    VF_WITNESS();
-  } VF_CATCH
 }
 
 // TrimTilesetSources: emptiness pattern concrete per query (PAT bit i: source i is empty; WHY bit i: because its tile count is 0
